@@ -217,7 +217,7 @@ func genProxy(r *hx.Rand, i int) interface{} {
 	}
 	in.Wire = genWire(r, in.Cfg, forgedValues, nil)
 	if r.Chance(1, 3) {
-		in.Wire = append(in.Wire, wireHdr{caseVariant(r, "Upgrade"), sp(r.Pick(upgradeValues))})
+		in.Wire = append(in.Wire, genUpgrade(r)...)
 	}
 	if r.Chance(1, 6) {
 		in.Wire = append(in.Wire, genConnection(r, in.Cfg))
